@@ -308,6 +308,11 @@ def jobs_for(tier):
     for seed in ((0, 1) if tier == "quick" else range(6)):
         jobs.append(({"num_hosts": 8, "num_services": 2, "num_os": 11, "num_processes": 2, "restrictiveness": 2,
                       "exploit_probs": 0.5, "seed": seed}, 1, 1500 if tier == "quick" else 20000))
+    # valid but extreme / fractional numbers: rewards far below float32 resolution, fractional rewards and costs
+    for seed in ((0, 1) if tier == "quick" else range(6)):
+        jobs.append(({"num_hosts": 5, "num_services": 2, "r_sensitive": 1e-46, "r_user": 1e-46, "exploit_probs": 0.5, "seed": seed}, 0, 1500))
+        jobs.append(({"num_hosts": 6, "num_services": 3, "r_sensitive": 7.5, "r_user": 0.5, "exploit_cost": 2.5, "privesc_cost": 1.5,
+                      "exploit_probs": 0.5, "seed": seed}, 0, 1500))
     bench_seeds = range(0, 10) if tier == "quick" else range(0, 100)
     for name, q in benchmark_param_sets():
         for seed in bench_seeds:
